@@ -22,7 +22,9 @@
        typed in the run-time judgement, all 14 forms (proofs/RtTcSound.v, RtTcSoundTop.v, RtTcBisim.v).
        Premises left, per program: prog_syn_ok p and rt_syn_ok p (two computable conditions on the
        parsed program — types and names are what the parser and expansion produce — evaluated on
-       every program by the check module) and Topo on the reachable configurations.
+       every program by the check module) and Topo on the reachable configurations;
+       C01_safety_parsed_partial: for a program that comes out of parse_string, prog_syn_ok is a
+       theorem (proofs/ParseSynOk.v) and only rt_syn_ok is left of the two.
    NOT proved: the non-polarized mode (`safety_statement` quantifies over the three modes), and the
    premise topo_runs / topo_reachable (tested by proofs/TopoCheck.v on every suite run). *)
 From stdpp Require Import gmap strings.
@@ -131,6 +133,15 @@ Theorem C01_safety_tc_partial : forall p p' md,
     exec_run fuel pick md (p_types p') (p_funs p') (init_config p') <> RError c who e.
 Proof. exact safety_tc_partial. Qed.
 
+(* for programs that come out of the parser prog_syn_ok is a theorem (proofs/ParseSynOk.v) *)
+Theorem C01_safety_parsed_partial : forall txt p p' md,
+  parse_string txt = POk p -> typecheck p = Accept p' -> in_fragment p' -> rt_syn_ok p = true ->
+  (forall md c, is_np md = false -> reachable (p_types p') (p_funs p') md (init_config p') c -> Topo c) ->
+  is_np md = false ->
+  forall fuel pick c who e,
+    exec_run fuel pick md (p_types p') (p_funs p') (init_config p') <> RError c who e.
+Proof. exact safety_parsed_partial. Qed.
+
 (* the two computable premises as the check module evaluates them on every program of the suite *)
 Theorem C01_syn_premises_sound : forall txt, syn_premises_text txt = SY_ok ->
   exists p p', parse_string txt = POk p /\ typecheck p = Accept p' /\ in_fragment p' /\
@@ -184,6 +195,7 @@ Print Assumptions C01_teq_rt_laws.
 Print Assumptions C01_tc_annotations_typed.
 Print Assumptions C01_initial_typed_tc.
 Print Assumptions C01_safety_tc_partial.
+Print Assumptions C01_safety_parsed_partial.
 Print Assumptions C01_syn_premises_sound.
 Print Assumptions C01_examples_syn_ok.
 Print Assumptions C01_static_check_examples.
